@@ -18,10 +18,14 @@ Inductive req :=
 | Nice (value : option Z)
 | Ionice (ioclass value : option Z)
 | Affinity (cpus : option (list Z))
-| Rlimit (res : Z) (limits : option (list Z)).
+| Rlimit (res : Z) (limits : option (list Z))
+| RlimitScalar (res v : Z).      (* rlimit(res, v) with an int instead of a sequence *)
 
 Definition wrap (e : errno) : exn :=
-  match e with ESRCH => NoSuchProcess | EPERM => AccessDenied | EINVAL => OSError end.
+  match e with ESRCH => NoSuchProcess | EPERM | EACCES => AccessDenied | EINVAL => OSError end.
+(* the psutil exceptions built by wrap_exceptions carry the pid of the Process object *)
+Definition exc_pid (pid : Z) (e : exn) : option Z :=
+  match e with NoSuchProcess | AccessDenied | ZombieProcess => Some pid | _ => None end.
 Definition fits_int (v : Z) : bool := (-2147483648 <=? v) && (v <=? 2147483647).
 Definition fits_long (v : Z) : bool := (- 2 ^ 63 <=? v) && (v <? 2 ^ 63).
 
@@ -148,24 +152,22 @@ Definition parse_item (item : bytes) : outcome (list Z) :=
   do b <- py_int (match last with [] => first | _ => last end);
   Val (zrange a (b + 1)).
 
+(* the body of _get_eligible_cpus on the bytes of the status file *)
+Definition parse_status (data : bytes) (ncpu : Z) : outcome (list Z) :=
+  match find_list_line (split_on 10 data) with
+  | Some v =>
+    if contains 45 v
+    then do ls <- mapM parse_item (split_on 44 v); Val (concat ls)
+    else Val (zrange 0 ncpu)
+  | None => Val (zrange 0 ncpu)
+  end.
 (* _pslinux.Process._get_eligible_cpus *)
 Definition get_eligible_cpus (pid : Z) (k : kernel) : outcome (list Z) :=
   match kget pid k with
   | None => Exc NoSuchProcess
-  | Some p =>
-    match find_list_line (split_on 10 (k_status p)) with
-    | Some v =>
-      if contains 45 v
-      then do ls <- mapM parse_item (split_on 44 v); Val (concat ls)
-      else Val (zrange 0 (k_ncpu k))
-    | None => Val (zrange 0 (k_ncpu k))
-    end
+  | Some p => parse_status (k_status p) (k_ncpu k)
   end.
 
-(* psutil_proc_cpu_affinity_set: PyLong_AsLong per item (OverflowError beyond a C long),
-   -1 -> ValueError, CPU_SET ignores ids outside 0..1023 of the fixed cpu_set_t.
-   With both kinds of bad item present the set order decides which error is raised;
-   both are handled alike by the caller (lemma diagnose_value), the model picks ValueError. *)
 (* CPU_SET(value, &cpu_set) with [long value]: the macro converts to size_t and sets the bit only
    if it lies inside the 1024-bit cpu_set_t; the value is NOT narrowed to an int first, so
    2^31, 2^32, 2^32+k, 2^62 ... name no CPU at all (negative longs become huge size_t values) *)
@@ -209,19 +211,24 @@ Definition cpu_affinity (pid : Z) (cpus : option (list Z)) (k : kernel) : outcom
   end.
 
 (* ---------------------------------------------------------------- rlimit *)
-(* resource.prlimit(pid, resource[, limits]) of CPython over prlimit(2) *)
+(* resource.prlimit(pid, resource[, limits]) of CPython over prlimit(2).  (psutil has no C
+   wrapper of its own here.)  py2rlimit: PyLong_AsLongLong (OverflowError outside a C long long)
+   then the cast to rlim_t, so -1 becomes RLIM_INFINITY = 2^64-1; rlimit2py: values above
+   LLONG_MAX are shown as the negative long long with the same bits. *)
+Definition u64 (v : Z) : Z := if v <? 0 then v + 2 ^ 64 else v.
+Definition rlim2py (u : Z) : Z := if 2 ^ 63 <=? u then u - 2 ^ 64 else u.
 Definition py_prlimit (pid res : Z) (limits : option (list Z)) (k : kernel) : outcome resv * kernel :=
   if negb (fits_int res) then (Exc OverflowError, k)
   else if negb (res_ok res) then (Exc ValueError, k)
   else match limits with
        | None => match sys_prlimit_get pid res k with
-                 | SOk (s, h) => (Val (RPair s h), k)
+                 | SOk (s, h) => (Val (RPair (rlim2py s) (rlim2py h)), k)
                  | SErr EINVAL => (Exc ValueError, k)
                  | SErr e => (Exc (wrap e), k)
                  end
        | Some [s; h] =>
          if fits_long s && fits_long h then
-           match sys_prlimit_set pid res s h k with
+           match sys_prlimit_set pid res (u64 s) (u64 h) k with
            | (SOk _, k') => (Val RNone, k')
            | (SErr EINVAL, _) => (Exc ValueError, k)
            | (SErr e, _) => (Exc (wrap e), k)
@@ -237,6 +244,9 @@ Definition rlimit (pid res : Z) (limits : option (list Z)) (k : kernel) : outcom
        | Some l => if negb (length l =? 2)%nat then (Exc ValueError, k)
                    else py_prlimit pid res (Some l) k
        end.
+(* len(limits) on an int: TypeError, before any system call *)
+Definition rlimit_scalar (pid res v : Z) (k : kernel) : outcome resv * kernel :=
+  if pid =? 0 then (Exc ValueError, k) else (Exc TypeError, k).
 
 Definition run_req (pid : Z) (r : req) (k : kernel) : outcome resv * kernel :=
   match r with
@@ -244,4 +254,5 @@ Definition run_req (pid : Z) (r : req) (k : kernel) : outcome resv * kernel :=
   | Ionice c v => ionice pid c v k
   | Affinity cpus => cpu_affinity pid cpus k
   | Rlimit res lim => rlimit pid res lim k
+  | RlimitScalar res v => rlimit_scalar pid res v k
   end.
